@@ -2,6 +2,7 @@ package sim
 
 import (
 	"fmt"
+	"net/url"
 	"strings"
 	"time"
 
@@ -32,7 +33,14 @@ type CertView struct {
 	UsesCR bool // the entry point consults CRLs
 }
 
-func ocspContactable(kind int) bool { return kind == UNormal || kind == UUpperHTTP }
+// urlContactable tells whether a URL string names a plain-HTTP location at
+// all: it parses (net/url, standard library) and its scheme is http in any
+// letter case. This is decided from the string itself, not from the kind the
+// generator meant to produce (a "%zz" lands harmlessly in a query string).
+func urlContactable(u string) bool {
+	p, err := url.Parse(u)
+	return err == nil && strings.EqualFold(p.Scheme, "http") && p.Host != ""
+}
 
 func (sc *RevScenario) buildViews(obs *RevObs, co *CallObs) []*CertView {
 	w := co.World
@@ -71,7 +79,7 @@ func (sc *RevScenario) buildViews(obs *RevObs, co *CallObs) []*CertView {
 			x := s.X[co.Rep]
 			sv.Contacted = x.Rec.Begun
 			sv.TBegin = x.Rec.TBegin
-			if !ocspContactable(s.URLKind) {
+			if !urlContactable(s.URL) {
 				sv.NoNetwork = true
 				sv.Alts = []string{ClNone}
 			} else if v.IsRoot {
@@ -127,7 +135,7 @@ func (sc *RevScenario) buildViews(obs *RevObs, co *CallObs) []*CertView {
 				xb := s.XBase[co.Rep]
 				sv.Contacted = xb.Rec.Begun
 				sv.TBegin = xb.Rec.TBegin
-				if s.URLKind != UNormal && s.URLKind != UUpperHTTP {
+				if !urlContactable(s.URL) {
 					sv.NoNetwork = true
 					sv.Alts = []string{ClNone}
 					break
